@@ -375,12 +375,12 @@ func main() {
 			prog, perr := os.ReadFile(out + ".progress")
 			fatal := ""
 			for _, l := range strings.Split(logs[i], "\n") {
-				if strings.HasPrefix(l, "fatal error:") || strings.HasPrefix(l, "runtime: goroutine stack exceeds") || strings.HasPrefix(l, "panic:") {
+				if strings.HasPrefix(l, "fatal error:") || strings.HasPrefix(l, "runtime: goroutine stack exceeds") {
 					fatal = l
 					break
 				}
 			}
-			if perr == nil && fatal != "" && !strings.Contains(logs[i], "zz_verif_") {
+			if perr == nil && fatal != "" {
 				cb, _ := json.Marshal(map[string]any{"case": string(prog), "crash": fatal, "log_tail": tail(logs[i], 40)})
 				crashes = append(crashes, &violation{Key: "crash:" + oneLine(fatal, 80), Msg: fmt.Sprintf("process crashed (%s) while running: %s", fatal, oneLine(string(prog), 300)), Replay: cb, Count: 1})
 				reports[i] = &report{Property: id, Classes: map[string]int64{}, Nontrivial: map[string]bool{}, Exhaustive: false, Caps: []string{fmt.Sprintf("shard %d crashed", i)}}
